@@ -1,4 +1,5 @@
 use super::Value;
+use super::evaluator_numeric::compare_int_with_float;
 use std::collections::BTreeMap;
 
 pub(super) fn cypher_equals(left: &Value, right: &Value) -> Value {
@@ -21,10 +22,7 @@ pub(super) fn cypher_equals(left: &Value, right: &Value) -> Value {
 }
 
 fn float_equals_int(float_value: f64, int_value: i64) -> bool {
-    if float_value.is_nan() || !float_value.is_finite() {
-        return false;
-    }
-    float_value == int_value as f64
+    compare_int_with_float(int_value, float_value) == Some(std::cmp::Ordering::Equal)
 }
 
 fn cypher_equals_sequence(left: &[Value], right: &[Value]) -> Value {
